@@ -70,6 +70,34 @@ var lexTable = map[string][]lexeme{
 	"string": {{"abc", "canon", "s:abc"}, {"a b&c=d?e#f%2F/é", "boundary", "s:a b&c=d?e#f%2F/é"}, {"12a", "garbage", "s:12a"}, {"9223372036854775808", "outOfRange", "s:9223372036854775808"}, {"", "empty", "s:"}},
 }
 
+// odd spellings per type; which of them are in the type's lexical space - and which typed value they denote - is
+// decided by the trusted oracle (classify: strconv / time.Parse), not written down here
+var oddLex = map[string][]string{
+	"int":      {"+5", "007", "-0", "1e3", "0x10", "1_000", "5.0", "٣", "9223372036854775807", "-9223372036854775809"},
+	"int64":    {"+5", "007", "-0", "1e3", "0x10", "1_000", "5.0", "٣", "-9223372036854775809"},
+	"int32":    {"+5", "007", "-0", "1e3", "0x10", "2147483648", "-2147483649", "5.0"},
+	"double":   {"1e3", "1E3", ".5", "5.", "-0", "+1.5", "NaN", "Inf", "-Inf", "infinity", "0x1p-2", "1_0.5", "1e-400", "4.9e-324", "1e308", "1e309", "00.5", "1.5e+3"},
+	"float":    {"1e3", ".5", "5.", "-0", "+1.5", "NaN", "-Inf", "0x1p-2", "1e-60", "1e38", "3.5e38", "1.401298464324817e-45"},
+	"datetime": {"2024-02-29T23:59:60Z", "0001-01-01T00:00:00Z", "9999-12-31T23:59:59.999999999Z", "2024-01-02T03:04:05+14:00", "2024-01-02T03:04:05-00:00", "2024-01-02T03:04:05.5Z", "2024-01-02T24:00:00Z", "2024-01-02 03:04:05Z", "2024-01-02t03:04:05z", "2023-02-29T00:00:00Z", "2024-01-02T03:04:05", "2024-01-02T03:04:05+0200", "2024-1-2T03:04:05Z", "2024-01-02T03:04:05,5Z", "1969-12-31T23:59:59-12:00"},
+	"bool":     {"TRUE", "True", "1", "0", "t", "f", "false "},
+}
+
+func init() {
+	for typ, texts := range oddLex {
+		for _, x := range texts {
+			if typ == "bool" {
+				continue // (which spellings beyond true / false a boolean takes is not something strconv and OpenAPI agree on: left out)
+			}
+			cls, tok := classify(typ, x)
+			if cls == "canon" {
+				cls = "boundary"
+			}
+			lexTable[typ] = append(lexTable[typ], lexeme{x, cls, tok})
+			pathLex[typ] = append(pathLex[typ], x)
+		}
+	}
+}
+
 func lexOf(typ, cls string, rng *rand.Rand) lexeme {
 	var c []lexeme
 	for _, l := range lexTable[typ] {
